@@ -200,12 +200,14 @@ def build_harness(ctx, race=False):
     return exe
 
 
-def split_cases(path):
+def split_cases(path, keep_tilde=False):
     """Yield (case_id, [lines]) for a trace file."""
     cur_id, cur = None, []
     with open(path, errors='replace') as f:
         for line in f:
             line = line.rstrip('\n')
+            if line.startswith('~') and not keep_tilde:
+                continue
             if line.startswith('case '):
                 if cur_id is not None:
                     yield cur_id, cur
@@ -244,7 +246,7 @@ def run_one(ctx, exe, run, seed, tier, tag, replay_ops=None):
     """One harness run + model replay + judge.  Returns the run directory."""
     d = os.path.join(ctx.scratch, '%s-%s' % (run['cmd'], tag))
     os.makedirs(d, exist_ok=True)
-    cmd = [exe, run['cmd'], '-seed', str(seed), '-tier', tier, '-out', d] + run.get('args', [])
+    cmd = [exe, run['cmd'], '-seed', str(seed), '-tier', tier, '-out', d]
     cdir = os.path.join(ctx.root, 'corpus', run.get('corpus', ctx.pid))
     if replay_ops is None and os.path.isdir(cdir):
         cmd += ['-corpus', cdir]
@@ -253,6 +255,7 @@ def run_one(ctx, exe, run, seed, tier, tag, replay_ops=None):
         with open(rp, 'w') as f:
             f.write('\n'.join(replay_ops) + '\n')
         cmd += ['-replay', rp]
+    cmd += run.get('args', [])
     work = os.path.join(d, 'work')
     os.makedirs(work, exist_ok=True)
     t = time.time()
@@ -292,7 +295,7 @@ def run_one(ctx, exe, run, seed, tier, tag, replay_ops=None):
                     m = re.search(r'case=(\S+)', line)
                     s = re.search(r'sig=(\S+)', line)
                     if cases is None:
-                        cases = dict(split_cases(trace))
+                        cases = dict(split_cases(trace, keep_tilde=True))
                     cid = m.group(1) if m else '?'
                     ctx.violations.append(dict(run=run, seed=seed, tier=tier, case=cid, sig=s.group(1) if s else '?',
                                                text=line.strip(), lines=cases.get(cid, [])))
@@ -342,7 +345,7 @@ def write_replay(ctx, kind, payload):
 
 
 def ops_of(lines):
-    return [l for l in lines if not l.startswith('>')]
+    return [l for l in lines if not l.startswith('>') and not l.startswith('~')]
 
 
 def write_evidence(ctx, spec, nviol, replay=False):
@@ -452,7 +455,10 @@ def run_check(ctx, spec, replay):
     # 4 classify
     known = load_known(ctx)
     unlisted = []
+    sigf = spec.get('sig_filter')
     for v in ctx.violations:
+        if sigf and not re.fullmatch(sigf, v['sig']):
+            continue   # a verdict about another property's clause (same harness run)
         hit = next((k for k in known if re.fullmatch(k['sig'], v['sig'])), None)
         if hit:
             if hit not in ctx.known:
